@@ -1965,6 +1965,12 @@ class HealSparseMap(object):
             new_sparse_map[nfine_per_cov: 2*nfine_per_cov, :] = self._sparse_map[
                 self._cov_map[covpix] + covpix*nfine_per_cov:
                 self._cov_map[covpix] + covpix*nfine_per_cov + nfine_per_cov, :]
+        elif self._is_bit_packed:
+            # The overflow block of a bit-packed map is all False, as initialized here.
+            new_sparse_map = _PackedBoolArray(size=2*nfine_per_cov)
+            new_sparse_map[nfine_per_cov: 2*nfine_per_cov] = self._sparse_map[
+                self._cov_map[covpix] + covpix*nfine_per_cov:
+                self._cov_map[covpix] + covpix*nfine_per_cov + nfine_per_cov]
         else:
             new_sparse_map = np.zeros(2*nfine_per_cov, dtype=self.dtype)
             # Copy overflow bin
